@@ -82,6 +82,8 @@ package core
 //@   modifies c.inMsgQueue, c.inFragQueue, c.outFragQueue, elastic.RingBuffer.rb, elastic.Buffer.pending, linkedlist.Buffer.bs, linkedlist.Buffer.head, linkedlist.Buffer.tail, linkedlist.Buffer.size, linkedlist.Buffer.bytes
 //@   ensures !c.opened && c.inMsgQueue == nil && c.inFragQueue == nil && c.outFragQueue == nil
 
+// The residual flush before a close must not spin: an iteration continues only after it has dropped from the buffer what
+// the kernel accepted (clause flush.progress, checked on the back edge); any write error ends the loop.
 // eventloop.closeConn (C15): the close callbacks see the connection with its queues still in place (so that they can
 // resolve what is pending on it); afterwards the connection is closed and its queues are gone.
 //@ func eventloop.closeConn
@@ -95,8 +97,10 @@ package core
 //@   modifies elastic.Buffer.pending, linkedlist.Buffer.bs, linkedlist.Buffer.head, linkedlist.Buffer.tail, linkedlist.Buffer.size, linkedlist.Buffer.bytes
 //@   modifies linkedlist.node.next, linkedlist.node.buf, allmem("[]byte")
 //@   modifies mapof(el.connections), FragQueue.head, FragQueue.tail, FragQueue.count, Frag.next, Frag.prev, Frag.intree
+//@   label FD at call Buffer.Discard#0
 //@   ensures !c.opened && closedfx(c)
 //@   loop 0
+//@     backedge[flush.progress@C15] reached(FD)
 //@     invariant c != nil && c.loop != nil && c.loop.ln != nil && c.outboundBuffer != nil && elastic.mwf(c.outboundBuffer) && c.opened && el.eventHandler != nil && el.poller != nil && el.connections != nil
 //@     invariant c.inMsgQueue != nil && c.inFragQueue != nil && c.outFragQueue != nil
 
